@@ -207,8 +207,11 @@ func genTxnProgram(r *hx.Rng) *Program {
 			p.Ops = append(p.Ops, Op{S: s, Kind: "rollback"})
 		case x < 36:
 			p.Ops = append(p.Ops, Op{S: s, Kind: "dcommit"})
-		case x < 52:
+		case x < 48:
 			p.Ops = append(p.Ops, Op{S: s, Kind: "read"})
+		case x < 52:
+			// HEAD- / branch-relative read, typically inside a transaction while others create dolt commits
+			p.Ops = append(p.Ops, Op{S: s, Kind: hx.Pick(r, []string{"readh", "readh", "readb"})})
 		case x < 59:
 			// the other database: often the session's first reference to it, in the middle of a transaction
 			p.Ops = append(p.Ops, Op{S: s, Kind: "reado"})
@@ -230,7 +233,7 @@ func genTxnProgram(r *hx.Rng) *Program {
 	}
 	// everybody reads twice more and finishes
 	for s := 0; s < p.NSess; s++ {
-		p.Ops = append(p.Ops, Op{S: s, Kind: "read"}, Op{S: s, Kind: "reado"})
+		p.Ops = append(p.Ops, Op{S: s, Kind: "read"}, Op{S: s, Kind: "reado"}, Op{S: s, Kind: "readh"})
 	}
 	for s := 0; s < p.NSess; s++ {
 		p.Ops = append(p.Ops, Op{S: s, Kind: "commit"})
@@ -253,6 +256,12 @@ func witnessPrograms() []*Program {
 			{S: 0, Kind: "begin"}, {S: 1, Kind: "begin"},
 			{S: 0, Kind: "upd", Key: 1, Col: 0, V: Int(1)}, {S: 1, Kind: "upd", Key: 1, Col: 1, V: Str("y")},
 			{S: 0, Kind: "commit"}, {S: 1, Kind: "read"}, {S: 1, Kind: "commit"}, {S: 0, Kind: "read"}}},
+		// AS OF 'HEAD' / AS OF 'main' inside a transaction after another session's dolt commit moved the head
+		{Mode: "txn", NSess: 2, Ops: []Op{
+			{S: 0, Kind: "ins", Key: 1, Row: r0}, {S: 0, Kind: "dcommit"},
+			{S: 1, Kind: "begin"}, {S: 1, Kind: "readh"},
+			{S: 0, Kind: "ins", Key: 2, Row: r0}, {S: 0, Kind: "dcommit"},
+			{S: 1, Kind: "readh"}, {S: 1, Kind: "readb"}, {S: 1, Kind: "read"}, {S: 1, Kind: "commit"}, {S: 1, Kind: "readh"}}},
 		// first reference to the other database in the middle of a transaction, after a commit there
 		{Mode: "txn", NSess: 2, Ops: []Op{
 			{S: 2, Kind: "inso", Key: 1, Row: r0},
